@@ -1,5 +1,5 @@
 """pytest plugin (loaded with `-p calib_plugin`, no edit of /repo): runs the repository's own pinned test suite with the
-per-operation monitors of C01, C02, C03, C06, C07, C10 and C13 attached to every State the tests create, through the
+per-operation monitors of C01, C02, C03, C06, C07, C10, C12 (table-all settlement), C13 and C14 attached to every State the tests create, through the
 same State._update wrap the simulator uses.  The scripted hands are behaviour the maintainers pinned, so a monitor that
 alarms there is either over-strict (a false alarm to correct) or has found a defect the suite tolerates (to triage).
 Alarms never fail a test; they are written to $CALIB_OUT/calib-<pid>.json and merged by selftest/calibrate.py.
@@ -19,7 +19,7 @@ from sim import boot  # noqa: E402
 pk = boot.boot()
 from sim import observe, play  # noqa: E402
 from sim.play import Violation  # noqa: E402
-from checks import c01, c02, c03, c06, c07, c10, c13  # noqa: E402
+from checks import c01, c02, c03, c06, c07, c10, c12, c13, c14  # noqa: E402
 import pokerkit  # noqa: E402
 from pokerkit.state import State  # noqa: E402
 from pokerkit import utilities as U  # noqa: E402
@@ -77,16 +77,17 @@ class FakeWorld:
         self.monitors = {}
         skip = set()
         if any(s == float('inf') for s in st.starting_stacks):
-            skip |= {'C01', 'C02', 'C03'}           # infinite stacks: outside the stated bounds of these models
+            skip |= {'C01', 'C02', 'C03', 'C12'}    # infinite stacks: outside the stated bounds of these models
         zero_rake = getattr(st.rake, 'func', None) is U.rake and not getattr(st.rake, 'args', ()) and \
             getattr(st.rake, 'keywords', None) == {'percentage': 0}         # HandHistory's default: a 0 % rake
         if st.rake is not U.rake and not zero_rake:
-            skip |= {'C02'}                          # the settlement model runs with rake off
+            skip |= {'C02', 'C12'}                   # the settlement model runs with rake off
         if st.divmod is not U.divmod:
-            skip |= {'C02'}
+            skip |= {'C02', 'C12'}
         for name, make in (('C01', c01.ChipLedger), ('C06', c06.CardMonitor), ('C07', lambda: c07.PhaseMonitor(cfg)),
                            ('C03', lambda: c03.BetMonitor(unit_of_state(st))), ('C10', c10.DealMonitor),
-                           ('C13', c13.OpenMonitor), ('C02', lambda: c02.SettleMonitor(cfg))):
+                           ('C13', c13.OpenMonitor), ('C02', lambda: c02.SettleMonitor(cfg)),
+                           ('C12', lambda: c12.TableAll(cfg)), ('C14', lambda: c14.RunoutMonitor(cfg))):
             if name in skip:
                 STATS['skipped'][name] = STATS['skipped'].get(name, 0) + 1
                 continue
@@ -95,6 +96,9 @@ class FakeWorld:
         if 'C06' in self.monitors and c06.places(st) != Counter(st.deck):
             del self.monitors['C06']          # the test rigged a partial deck before the first operation
             STATS['skipped']['C06 (test replaced deck_cards)'] = STATS['skipped'].get('C06 (test replaced deck_cards)', 0) + 1
+
+    enabled_phase = play.World.enabled_phase
+    runout_prefs = ()
 
     def each(self, method, *args):
         for name in list(self.monitors):
